@@ -52,6 +52,8 @@ func loose(e ast.Expr) string {
 		return "[" + loose(x.Len) + "]" + loose(x.Elt)
 	case *ast.StarExpr:
 		return "*" + loose(x.X)
+	case *ast.MapType:
+		return "map[" + loose(x.Key) + "]" + loose(x.Value)
 	case *ast.TypeAssertExpr:
 		return loose(x.X) + ".(" + loose(x.Type) + ")"
 	case *ast.KeyValueExpr:
